@@ -596,13 +596,140 @@ def rename_back(relpath: str, tree: ast.Module) -> List[str]:
     return done
 
 
+def renest_recursive_helpers(relpath: str, tree: ast.Module, known: Set[str]) -> List[str]:
+    """reverse lambda lifting: a NEW private recursive function M that is called from exactly one other function F, and
+    whose recursive calls pass some parameters on unchanged, is moved back into F as a closure over those parameters:
+        def _visit(self, name, deps, visited, out): ...; self._visit(d, deps, visited, out)      (method, new)
+        F: self._visit(root, deps, visited, out)
+    becomes, inside F,  def _visit(name): ... _visit(d) ...  with deps / visited / out read from F's scope."""
+    done: List[str] = []
+    funcs = _outer_functions(tree)
+    for q, node, owner, cls in funcs:
+        if q in known or node.name.startswith("__") or not node.name.startswith("_") or isinstance(node, ast.AsyncFunctionDef) or node.decorator_list:
+            continue
+        if node.args.vararg or node.args.kwarg or any(isinstance(x, (ast.Yield, ast.YieldFrom)) for x in ast.walk(node)):
+            continue
+        is_method = cls is not None
+        params = _params(node)
+        if is_method:
+            if not params or params[0] != "self":
+                continue
+            params = params[1:]
+
+        def is_call(c):
+            f = c.func
+            if is_method:
+                return isinstance(f, ast.Attribute) and f.attr == node.name and isinstance(f.value, ast.Name) and f.value.id == "self"
+            return isinstance(f, ast.Name) and f.id == node.name
+
+        def bind(c):
+            if any(isinstance(a, ast.Starred) for a in c.args) or any(k.arg is None for k in c.keywords) or len(c.args) > len(params):
+                return None
+            b = dict(zip(params, c.args))
+            for k in c.keywords:
+                if k.arg not in params or k.arg in b:
+                    return None
+                b[k.arg] = k.value
+            return b if set(b) == set(params) else None
+        rec_calls = [c for c in ast.walk(node) if isinstance(c, ast.Call) and is_call(c)]
+        if not rec_calls:
+            continue
+        callers = []
+        for q2, n2, o2, c2 in funcs:
+            if n2 is node or (is_method and c2 is not cls):
+                continue
+            cs = [c for c in ast.walk(n2) if isinstance(c, ast.Call) and is_call(c)]
+            if cs:
+                callers.append((n2, cs))
+        other_refs = sum(1 for x in ast.walk(tree) if (isinstance(x, ast.Attribute) and x.attr == node.name) or (isinstance(x, ast.Name) and x.id == node.name)) - len(rec_calls) - sum(len(cs) for _, cs in callers)
+        if len(callers) != 1 or other_refs != 0:
+            continue
+        F, fcalls = callers[0]
+        rb = [bind(c) for c in rec_calls]
+        fb = [bind(c) for c in fcalls]
+        if any(b is None for b in rb + fb):
+            continue
+        stored = {n.id for n in ast.walk(node) if isinstance(n, ast.Name) and isinstance(n.ctx, (ast.Store, ast.Del))}
+        invariant = [p for p in params if p not in stored and all(isinstance(b[p], ast.Name) and b[p].id == p for b in rb)]
+        variant = [p for p in params if p not in invariant]
+        if not invariant or not variant:
+            continue
+        # the invariant arguments at F's call sites: the same atomic expression everywhere
+        inv_expr = {}
+        ok = True
+        for p in invariant:
+            exprs = {ast.dump(b[p]) for b in fb}
+            if len(exprs) != 1 or not _is_atomic(fb[0][p]):
+                ok = False
+                break
+            inv_expr[p] = fb[0][p]
+        if not ok:
+            continue
+        F_names = {n.id for n in ast.walk(F) if isinstance(n, ast.Name)} | set(_params(F))
+        if node.name in F_names:
+            continue
+        # names the helper binds itself must not clash with F's names that the invariant expressions mention
+        inv_names = {n.id for e in inv_expr.values() for n in ast.walk(e) if isinstance(n, ast.Name)}
+        own = {n.id for n in ast.walk(node) if isinstance(n, ast.Name) and isinstance(n.ctx, ast.Store)} | set(variant)
+        if own & inv_names:
+            continue
+
+        class Rw(ast.NodeTransformer):
+            def visit_Call(self, c):
+                self.generic_visit(c)
+                if is_call(c):
+                    b = bind(c)
+                    if b is not None:
+                        return ast.copy_location(ast.Call(func=ast.Name(id=node.name, ctx=ast.Load()), args=[b[p] for p in variant], keywords=[]), c)
+                return c
+
+            def visit_Name(self, n):
+                if n.id in inv_expr and isinstance(n.ctx, ast.Load):
+                    return ast.copy_location(copy.deepcopy(inv_expr[n.id]), n)
+                return n
+        new_body = [Rw().visit(copy.deepcopy(st)) for st in node.body]
+        nested = ast.FunctionDef(name=node.name, args=ast.arguments(posonlyargs=[], args=[ast.arg(arg=p, annotation=None) for p in variant], vararg=None, kwonlyargs=[], kw_defaults=[], kwarg=None, defaults=[]),
+                                 body=new_body, decorator_list=[], returns=None, type_comment=None)
+        if hasattr(ast, "TypeAlias"):
+            nested.type_params = []
+
+        class RwF(ast.NodeTransformer):
+            def visit_Call(self, c):
+                self.generic_visit(c)
+                if is_call(c):
+                    b = bind(c)
+                    if b is not None:
+                        return ast.copy_location(ast.Call(func=ast.Name(id=node.name, ctx=ast.Load()), args=[b[p] for p in variant], keywords=[]), c)
+                return c
+        # place the closure in F's top-level body, right before the first statement that contains a call
+        idx = None
+        for i, st in enumerate(F.body):
+            if any(isinstance(c, ast.Call) and is_call(c) for c in ast.walk(st)):
+                idx = i
+                break
+        if idx is None:
+            continue
+        # every invariant expression must already be bound at that point: all names assigned before idx or parameters of F
+        bound_before = set(_params(F)) | {n.id for st in F.body[:idx] for n in ast.walk(st) if isinstance(n, ast.Name) and isinstance(n.ctx, ast.Store)}
+        if not inv_names <= bound_before | {"self"}:
+            continue
+        F.body = [RwF().visit(st) for st in F.body]
+        ast.copy_location(nested, F.body[idx])
+        F.body.insert(idx, nested)
+        ast.fix_missing_locations(F)
+        owner.remove(node)
+        done.append(f"{q} -> closure of {F.name}")
+    return done
+
+
 def inline_new_helpers(relpath: str, tree: ast.Module) -> Dict[str, List[str]]:
     pin = pinned()
     known = set(pin["functions"].get(relpath, []))
-    stats: Dict[str, List[str]] = {"renamed_back": [], "inlined": [], "kept": []}
+    stats: Dict[str, List[str]] = {"renamed_back": [], "inlined": [], "kept": [], "renested": []}
     if not known:
         return stats
     stats["renamed_back"] = rename_back(relpath, tree)
+    stats["renested"] = renest_recursive_helpers(relpath, tree, known)
     for _ in range(MAX_ROUNDS):
         funcs = _outer_functions(tree)
         helpers = [_Helper(q, node, owner, cls) for q, node, owner, cls in funcs if q not in known and not node.name.startswith("__")]
